@@ -105,9 +105,11 @@ var propertyConfigs = map[string]*propertyConfig{
 		Explain: "Refusal clause of the property: Combiner.GenAdditiveShare under the precondition len(activesPoints) < threshold returns a non-nil error on every path (and no path with fewer than t actives reaches the combination loop).  " +
 			"Plus, on the typed-AST engine: ring.Ring.NewRNSScalarFromUInt64 (the RNS form of a party's public point, from which the Lagrange coefficients are built) returns exactly v mod q_i for every modulus of the level and every uint64 v; the RNS scalar operations the Lagrange coefficient is assembled from (MFormRNSScalar, NegRNSScalar, SubRNSScalar, MulRNSScalar) compute, modulus by modulus, the Montgomery form, q - x, the reduced difference and the lazy Montgomery product of their inputs, for same-or-disjoint operands.  " +
 			"Share generation: ring.Ring.EvalPolyScalar (the Horner evaluation of the secret polynomial at a party's public point) is under a safety contract for every length (indices in range, callee preconditions) and, as a BOUNDED instance (three coefficients, loop unwound; unsigned machine products wrap modulo 2^64), computes p1[0] + p1[1]*x + p1[2]*x^2 in the ring.  " +
-			"NewCombiner (abstract contract, bounded instance: one Q modulus, no P, at most two other parties) owes Combiner.lagrangeCoeff its precondition: the two public points are distinct modulo every modulus (ghost predicate distinctmod); it does not establish it - recorded as a known finding.",
+			"NewCombiner (abstract contract, bounded instance: one Q modulus, no P, at most two other parties) owes Combiner.lagrangeCoeff its precondition: the two public points are distinct modulo every modulus (ghost predicate distinctmod); it does not establish it - recorded as a known finding; with one other party, the table entry it stores under that party's point is x_j * inv(x_j - x_own) in Montgomery form.  " +
+			"On the abstract engine an RNS scalar is a ring element (val / mexp keyed by its backing array; a direct store of a residue forgets them): Combiner.lagrangeCoeff is VERIFIED over the ring-element readings of the scalar operations (assumed leaves of ringqp; their row-level contracts are the typed-AST ones above): x_that * inv(x_that - x_this), one Montgomery factor, the inverse a named function.  " +
+			"Combiner.GenAdditiveShare, BOUNDED instance (threshold 3, three listed parties, loop unwound, no P): the additive share is the party's Shamir share times the product of the cached factors of the OTHER listed parties, wherever the party itself stands in the list (8 paths), with the Montgomery exponent of the share; the cached factors and the constant one are unchanged afterwards (a second call on the same combiner reads them again).",
 		Assumptions: append(append([]string{}, engineBAssumptions...), "ring.ModexpMontgomery is verified against pow: the result is the Montgomery representative of (value of x)^e, where the value of a representative t is t*winv with 2^64*winv = 1 (mod q) (loop invariant; inductive power lemmas checked by Lean); Ring.Inverse applies it with exponent q_i - 2 to every residue; that b*b^(q-2) = 1 (mod q) for a prime q not dividing b is the Lean theorem fermat_inverse, a lemma over that contract",
-			"NOT decided: that lagrangeCoeff composes these operations in the right order (ASSUMED contract carrying its precondition); that the shares of any t parties sum to the secret; order independence"),
+			"ASSUMED: the combiner's constant `one` holds 1 in Montgomery form (NewCombiner writes its residues one by one: outside the abstract engine); cached factors of different listed points are distinct arrays (the points are required distinct).  NOT decided: thresholds other than 3 for the product; that the product of the pairwise factors is the Lagrange coefficient at 0 and that the shares of any t parties therefore sum to the secret (the interpolation identity, a lemma over these contracts that is not formalised); order independence beyond the position of the own point"),
 		Trusted: append(append([]string{}, stdTrusted...), "Lean 4.33.0 kernel + Mathlib v4.33.0 (inductive lemmas, Fermat)"),
 		Extra: func(prog *Program, tier string) ([]*Obligation, []string) {
 			return []*Obligation{{Name: "lean/fermat_inverse", Func: "extra:lemmas-over-contracts", Kind: "lemma", Goal: TFalse, Lean: "fermat_inverse"}},
@@ -184,13 +186,13 @@ var propertyConfigs = map[string]*propertyConfig{
 	},
 	"C16": {
 		ID: "C16", Packages: []string{"./..."}, Level: "proof",
-		Explain: "Abstract contracts on collective key switching to a secret-shared key: GenShare = c1*(s_in - s_out) + one fresh draw of the smudging distribution; AggregateShares = + (error on level mismatch); KeySwitch = (c0 + sum shares, c1); " +
+		Explain: "Abstract contracts on collective key switching to a secret-shared key: GenShare = c1*(s_in - s_out) + one fresh draw of the smudging distribution; AggregateShares = + (error on level mismatch); KeySwitch = (c0 + sum shares, c1) and, towards a public key, (c0 + first half of the aggregate, second half of the aggregate), in place and out of place, at the SMALLER of the levels of the ciphertext and of the aggregate, touching no row beyond either (clause `safety rows`: the row preconditions of the assumed leaves Ring.Add and Poly.CopyLvl are obligations; finding F54); " +
 			"plus the copy contracts that keep the smudging sampler bound to the stored noise distribution in ShallowCopy; " +
 			"plus ShareToEncProtocol.GetEncryption (mpbgv, mpckks): the output is (aggregate, crp) and each component takes the level of its source, whatever level the receiver had (Poly.Copy is ASSUMED to resize its receiver to the source's level); " +
 			"plus the metadata of the masked transform / refresh (Transform of mpbgv and mpckks; transform nil, given, and refresh in place): on success the output records the input's flags and, for mpbgv, the input's scale (finding F38), for mpckks the default scale of the output parameters (to which the payload was rescaled) and IsBatched = transform.Encode; aggregated refresh shares carry the shares' metadata and public-key-switching shares of different levels are refused; " +
 			"plus the share conversions of mpbgv: EncToShare.GenShare = the key-switch share to the ZERO key MINUS the lift of the additive share the party keeps (the same mask, drawn once); GetShare = the reduction to R_t of (aggregate + c0) [+ the party's own share]; ShareToEnc.GenShare = the key-switch share FROM the zero key on the common reference polynomial PLUS the lift of the additive share; the refresh share uses ONE mask for both halves; and the payload of a refresh is lift(reduce(aggregate + c0)) + the aggregated re-encryption shares, with the reference polynomial as second component (lift / reduction between R_t and R_Q NAMED uf_lift / uf_q2t).",
 		Assumptions: append(append([]string{}, engineBAssumptions...), "masked transform: the encoder calls, the decryption share of the mask, SetCoefficientsBigint and NTTSparseAndMontgomery are TRUSTED abstract contracts (write their output only); the user's callback is ASSUMED to act on the values it is given (clause `callback`)",
-			"NOT decided: public-key switching shares, the share conversions of mpckks (big-float encoder), the payload of a masked transform WITH a transform (encoder semantics), what the lift / reduction between R_t and R_Q compute, the flooding noise magnitude (floating point)"),
+			"NOT decided: the value of public-key switching shares (GenShare towards a public key), the share conversions of mpckks (big-float encoder), the payload of a masked transform WITH a transform (encoder semantics), what the lift / reduction between R_t and R_Q compute, the flooding noise magnitude (floating point)"),
 		Trusted: stdTrusted, Simple: copySimple("C16"),
 	},
 	"C19": {
@@ -214,7 +216,7 @@ var propertyConfigs = map[string]*propertyConfig{
 		Assumptions: []string{
 			"the rescale constants satisfy rc*q_L = -2^64 (mod q_i) and the Montgomery/Barrett constants their defining equations (preconditions; their generation is not under contract)",
 			"rows of different index are disjoint storage (rowloop meta-argument)",
-			"NTT-domain variants (DivRoundByLastModulusNTT, DivFloorByLastModulusNTT): frame plus the DATA FLOW of each row only (the output row is the Montgomery product of the rescale constant with [buffer row after the forward transform] + 2q - [the input row]): what the transforms compute, and therefore the rounding offset, is not decided",
+			"NTT-domain variants (DivRoundByLastModulusNTT, DivFloorByLastModulusNTT): frame plus the DATA FLOW of each row (the output row is the Montgomery product of the rescale constant with [buffer row after the forward transform] + 2q - [the input row]); what the transforms compute is not decided.  The inverse transforms NAME their output (ghost function inttval of the memory before the call, the input row, the root table, degree and modulus: ASSUMED to depend on nothing else); over that name DivRoundByLastModulusNTT is proved to leave in the last buffer row [inverse transform of the last input row] + floor(q_L/2), reduced, for odd q_L - the centring constant of round-half-up; the constant subtracted again in the other rows is read from the same local but reaches the output through the forward transform only and is not decided",
 			"NOT decided: the *Many variants, basis extension values (ModUp/ModDown: float correction term), gadget decomposition digits",
 		},
 		Trusted: stdTrusted, Simple: copyAndLanes("C02"), SkipKinds: nil,
